@@ -400,6 +400,10 @@ func (e *c04Exec) subRun(z zoneCfg) (out []string, sdig string, infra string) {
 				if got.Repeat != "" {
 					e.violate("result-stability", "repeat-after-caller-edit", fmt.Sprintf("client %d op %d (%s %q): %s", ci, oi, op.Kind, c.Programs[op.Prog].Src, got.Repeat))
 				}
+				if got.OptsTail != "" {
+					e.violate("option-isolation", "caller-evaluate-options-overwritten", fmt.Sprintf("client %d op %d (%s %q): %s - a later call with that slice, or another goroutine using it, is affected", ci, oi, op.Kind, c.Programs[op.Prog].Src, got.OptsTail))
+				}
+				v.Stats.probe("evaluate-option-tail-checked")
 				if got.Stale != "" {
 					e.violate("input-currency", "input-change-ignored", fmt.Sprintf("client %d op %d (%s %q): %s", ci, oi, op.Kind, c.Programs[op.Prog].Src, got.Stale))
 				}
